@@ -47,7 +47,16 @@ def build(bins, timeout=1500):
         log(p.stdout[-4000:])
         raise ToolError("harness build failed")
     log("[build] %s ok in %.1fs" % (",".join(bins), time.time() - t0))
-    return {b: os.path.join(tdir, "debug", b) for b in bins}
+    # private copies: a rebuild by someone else while the check runs must not swap the engine under it
+    out = {}
+    for b in bins:
+        d = os.path.join(WORK, "bin-%d" % os.getpid())
+        os.makedirs(d, exist_ok=True)
+        shutil.copy2(os.path.join(tdir, "debug", b), os.path.join(d, b))
+        out[b] = os.path.join(d, b)
+    import atexit
+    atexit.register(lambda: shutil.rmtree(os.path.join(WORK, "bin-%d" % os.getpid()), ignore_errors=True))
+    return out
 
 
 def run_bin(path, args, timeout=1800, env=None, cwd=None, ok_codes=(0,), discard_stdout=False):
@@ -296,8 +305,18 @@ def distinct_count(items):
     return len({hashlib.sha1(json.dumps(x, sort_keys=True, default=str).encode()).hexdigest() for x in items})
 
 
+def isolate(pid):
+    """Work on a private copy of spec/ so that a check in progress is not disturbed by edits."""
+    global SPEC
+    dst = os.path.join(workdir(pid), "spec")
+    shutil.rmtree(dst, ignore_errors=True)
+    shutil.copytree(os.path.join(VERIF, "spec"), dst, ignore=shutil.ignore_patterns("states", "*_TTrace_*"))
+    SPEC = dst
+
+
 def main_wrapper(pid, fn):
     """Run fn(tier, seed) -> number of violations; map exceptions to exit codes."""
+    isolate(pid)
     tier = os.environ.get("VERIF_TIER", "quick")
     if len(sys.argv) > 2 and sys.argv[2] in ("quick", "thorough"):
         tier = sys.argv[2]
